@@ -393,6 +393,23 @@ def handler (fn : String) : Option Handler :=
           | ["none"] => "fail none-for-a-non-degenerate-scale"
           | "unknown-shape" :: _ => "fail unknown-shape"
           | _ => "pass" }
+  | "rpolyh_outline" => some {
+      model := fun _ => some "-"
+      oracle := fun a o => match run (do let k ← pnat; let pts ← pmany pq3 k; let br ← pq; let n ← pnat; pure (pts, br, n)) a with
+        | none => "skip bad-args"
+        | some (_, br, n) => if n < 2 then "skip subdivision-count-outside-the-domain" else
+          withOut o (do let k ← pnat; let pts ← pmany pq3 k; let ne ← pnat; let es ← pmany pedge ne; let m ← pmesh3; pure ((pts, es), m)) fun ((pts, es), (hv, ht)) =>
+            -- the rounded hull: points at distance `br` of the convex polyhedron the code built (exact planes / triangle distances);
+            -- an arc between two face normals at a vertex turns by less than π in `n` steps
+            let cen := centroid3 hv
+            let planes := planesOf hv.toArray ht cen
+            let tris := ht.filterMap fun (i, j, k) => match hv.toArray[i]?, hv.toArray[j]?, hv.toArray[k]? with
+              | some x, some y, some z => some [x, y, z] | _, _, _ => none
+            if planes.isEmpty || tris.isEmpty then "skip degenerate-hull" else
+            let inside (p : Q3) : Bool := planes.all fun pl => (pl.n.dot p - pl.d) * pl.sgn ≥ 0
+            let rout := hv.foldl (fun m v => rmax m (l1of (v.sub cen))) 0
+            let S : Surf Q3 := ⟨inside, d2shape tris, br, cen, br, br + rout⟩
+            outlineJudge S (muSteps [2 * (n : Rat)]) pts es }
   | "acc3" => some (accHandler 3)
   | "acc2" => some (accHandler 2)
   | "aabb_scaled3" => some {
